@@ -453,6 +453,14 @@ def run_mc_set(rep, binp, configs, what, module='MC_DecQ', kind='dec', export=Tr
                     break
         run['replayed_histories'] = len(hists)
         run['replayed_calls'] = ncalls
+        # vacuity guard: which kinds of results the explored behaviours contain (last call of each exported behaviour)
+        kinds = {}
+        for h in hists:
+            if h['calls']:
+                c = h['calls'][-1]
+                k = c['res'] + ('+had' if c.get('had') else '') + ('+q' if c.get('q') else '') + ('+last' if c.get('last') else '')
+                kinds[k] = kinds.get(k, 0) + 1
+        run['exported_last_call_kinds'] = kinds
         run['model_drift_histories'] = drift
         run['model_conformant'] = drift == 0
         if first:
